@@ -172,11 +172,14 @@ Spec == Init /\ [][Next]_vars
 \* generator: one draw per action kind, every draw passed as an operator argument (evaluated once)
 Pick(S) == RandomElement(S)
 PickSeq(s) == s[RandomElement(1..Len(s))]
+\* a key the project lists in its next-epoch version, if any (so that deletions often succeed)
+ListedKey(P, k) == LET f == FindE(pv[P], cur + 1) IN
+                   IF f.b # -1 /\ (f.dev \cup f.adm) # {} THEN RandomElement(f.dev \cup f.adm) ELSE k
 GenStep(kind, P, by, k, kd, e) ==
   \/ kind = "addproj" /\ AddProject(SubOf(IF P \in {"c1/q1", "c2/q1"} THEN P ELSE "c1/q1"), IF P \in {"c1/q1", "c2/q1"} THEN P ELSE "c1/q1", k, IF kd = "adm" THEN "dev" ELSE kd)
   \/ kind = "delproj" /\ DelProject(SubOf(P), P)
   \/ kind = "addkey" /\ AddKeys(P, IF by = "own" THEN SubOf(P) ELSE by, k, kd)
-  \/ kind = "delkey" /\ DelKeys(P, IF by = "own" THEN SubOf(P) ELSE by, k, kd)
+  \/ kind = "delkey" /\ DelKeys(P, IF by = "own" THEN SubOf(P) ELSE by, ListedKey(P, k), kd)
   \/ kind = "pay" /\ Relay(k, IF e = 1 /\ cur > 0 THEN cur - 1 ELSE cur, 10, nops + 1)
   \/ kind = "epoch" /\ IF cur < MaxEpoch THEN NextEpoch ELSE Relay(k, cur, 10, nops + 1)
 GenNext == /\ nops < MaxOps /\ nops' = nops + 1
